@@ -608,7 +608,13 @@ func (h *anteH) block(mid func(ctx sdk.Context), cases []txCase, record bool) (o
 				if v, ok := ic.value(c.fee); ok {
 					mn, mx := scaled(new(big.Int).SetUint64(ic.min)), scaled(new(big.Int).SetUint64(ic.max))
 					if v.Cmp(mn) < 0 || v.Cmp(mx) > 0 {
-						r.Fail("C09/fee-range/out-of-bounds-accepted", fmt.Sprintf("accepted fee value %s/1e18 outside [%d, %d]", v, ic.min, ic.max), replay)
+						what := fmt.Sprintf("accepted fee value %s/1e18 outside [%d, %d]", v, ic.min, ic.max)
+						if ic.min >= 1<<63 || ic.max >= 1<<63 {
+							// bounds of 2^63 and more are cast to negative int64 values (recorded finding; the model follows the casts)
+							r.Known("C09/fee-range/int64-cast-of-bounds", what)
+						} else {
+							r.Fail("C09/fee-range/out-of-bounds-accepted", what, replay)
+						}
 					}
 					if req := ic.execRequired(c.msgs); v.Cmp(scaled(req)) < 0 {
 						if req.BitLen() > 63 {
